@@ -75,6 +75,23 @@ def rule_buffer(chk):
                 e = t.exprs[0]
                 if isinstance(e, ast.Compare) and len(e.ops) == 1 and unparse(e.left) == "len(self.messages)" and lab == "true":
                     okb, b = ctx.try_fold(call, e.comparators[0])
+                    if not okb and common.is_self_attr(e.comparators[0]):
+                        # a per-instance bound: self.<attr> = <parameter with a constant default>, and the library builds its own buffer with that default
+                        battr = e.comparators[0].attr
+                        writes = [(m_, x) for m_ in set(call.cls.methods.values()) for x in iter_own_nodes(m_.node)
+                                  if isinstance(x, (ast.Assign, ast.AugAssign)) and any(common.is_self_attr(t_, battr) for t_ in (x.targets if isinstance(x, ast.Assign) else [x.target]))]
+                        a_ = init.node.args
+                        pos_ = a_.posonlyargs + a_.args
+                        dflt = dict(zip([z.arg for z in pos_[len(pos_) - len(a_.defaults):]], a_.defaults))
+                        dflt.update({z.arg: d_ for z, d_ in zip(a_.kwonlyargs, a_.kw_defaults) if d_ is not None})
+                        if len(writes) == 1 and writes[0][0] is init and isinstance(writes[0][1], ast.Assign) and isinstance(writes[0][1].value, ast.Name) and writes[0][1].value.id in dflt \
+                                and not stores_to_name(init, writes[0][1].value.id):
+                            okd, dv = ctx.try_fold(init, dflt[writes[0][1].value.id])
+                            ctor_sites = [x for f_ in ctx.p.all_funcs() for x in iter_own_nodes(f_.node) if isinstance(x, ast.Call) and isinstance(x.func, ast.Name) and x.func.id == call.cls.name]
+                            if okd and ctor_sites and all(not x.args and not x.keywords for x in ctor_sites):
+                                okb, b = True, dv
+                            elif okd:
+                                raise AnalysisError("BufferingDestination is built with an explicit bound somewhere (%s): not modelled" % [unparse(x)[:40] for x in ctor_sites if x.args or x.keywords][:1])
                     if okb and isinstance(e.ops[0], ast.Gt):
                         bound = b
                         okg = True
@@ -225,16 +242,54 @@ def rule_global(chk):
     chk.req(okg, "C12.global", "Destinations.addGlobalFields:updates-the-shared-dict", chk.where(ag), good="_globalFields.update(fields)", fail="addGlobalFields does not update the global field dict")
 
 
+def rule_atomic_updates(chk):
+    """Every update of the destination list is one in-place container operation (list.extend / list.remove: one step under the
+    interpreter lock) or a store of a value that does not derive from an earlier read of the list.  A read--copy--store sequence
+    outside any lock loses whichever of two concurrent add()/remove() calls stores first."""
+    ctx = chk.ctx
+    found = 0
+    for q in ("Destinations.add", "Destinations.remove"):
+        g = ctx.func("_output", q)
+        locked = any(isinstance(x, ast.With) for x in iter_own_nodes(g.node))
+        tainted = set()
+        changed = True
+        reads = lambda e: any(common.is_self_attr(y, "_destinations") and isinstance(y.ctx, ast.Load) for y in ast.walk(e)) or any(isinstance(y, ast.Name) and y.id in tainted for y in ast.walk(e))
+        while changed:
+            changed = False
+            for x in iter_own_nodes(g.node):
+                if isinstance(x, ast.Assign) and reads(x.value):
+                    for t in x.targets:
+                        if isinstance(t, ast.Name) and t.id not in tainted:
+                            tainted.add(t.id)
+                            changed = True
+        for x in iter_own_nodes(g.node):
+            if isinstance(x, (ast.Assign, ast.AugAssign)) and any(common.is_self_attr(t, "_destinations") for t in (x.targets if isinstance(x, ast.Assign) else [x.target])):
+                found += 1
+                if (isinstance(x, ast.AugAssign) or reads(x.value)) and not locked:
+                    chk.bad("C12.remove", "%s:destination-list-updated-in-one-step" % q, chk.where(g, x.lineno),
+                            "`%s` stores a value computed from an earlier read of self._destinations with no lock held: of two concurrent add()/remove() calls the one that stores last "
+                            "overwrites the other's update -- a destination whose add() already returned is dropped (it never receives later messages), or a removed one comes back" % unparse(x)[:70])
+    chk.ok("C12.remove", "Destinations:list-updates-examined", "eliot/_output.py", "%d stores to self._destinations examined in add/remove" % found, sites=max(found, 1))
+
+
 def rule_remove(chk):
     ctx = chk.ctx
     rm = ctx.func("_output", "Destinations.remove")
     dparam = rm.pos_params[1]
+    rule_atomic_updates(chk)
     calls = [n for n in iter_own_nodes(rm.node) if isinstance(n, ast.Call)]
-    ok = len(calls) == 1 and isinstance(calls[0].func, ast.Attribute) and calls[0].func.attr == "remove" and common.is_self_attr(calls[0].func.value, "_destinations") \
-        and len(calls[0].args) == 1 and isinstance(calls[0].args[0], ast.Name) and calls[0].args[0].id == dparam
-    stores = [n for n in iter_own_nodes(rm.node) if isinstance(n, (ast.Assign, ast.AugAssign, ast.Delete))]
-    chk.req(ok and not stores, "C12.remove", "Destinations.remove:removes-exactly-the-given-destination", chk.where(rm),
-            good="self._destinations.remove(destination) and nothing else", fail="remove() does more/less than removing the given destination")
+    inplace = [c for c in calls if isinstance(c.func, ast.Attribute) and c.func.attr == "remove" and common.is_self_attr(c.func.value, "_destinations")]
+    if not inplace:
+        if any(o.status == "VIOLATED" and o.rule == "C12.remove" for o in chk.obs):
+            return
+        raise AnalysisError("Destinations.remove does not call self._destinations.remove(...) (not modelled)")
+    ok = len(inplace) == 1 and len(inplace[0].args) == 1 and isinstance(inplace[0].args[0], ast.Name) and inplace[0].args[0].id == dparam and not stores_to_name(rm, dparam)
+    others = [c for c in calls if c not in inplace and any(common.is_self_attr(y, "_destinations") for y in ast.walk(c))]
+    stores = [n for n in iter_own_nodes(rm.node) if isinstance(n, (ast.Assign, ast.AugAssign, ast.Delete))
+              and any(common.is_self_attr(y, "_destinations") or common.is_self_attr(y, "_any_added") for t in (n.targets if not isinstance(n, ast.AugAssign) else [n.target]) for y in ast.walk(t))]
+    chk.req(ok and not stores and not others, "C12.remove", "Destinations.remove:removes-exactly-the-given-destination", chk.where(rm),
+            good="self._destinations.remove(destination) is the only change to the destination list",
+            fail="remove() removes %s / also changes the destination list by %s" % ([unparse(c)[:40] for c in inplace], [unparse(x)[:40] for x in stores + others]))
 
 
 def rule_lock(chk):
